@@ -85,7 +85,12 @@ func runsFor(prop, tier string) []run {
 		few.WShapes = [][2]int{{0, 8}, {8, 16}, {0, 24}, {3, 2}, {7, 1}, {4, 8}, {6, 12}, {12, 12}, {20, 4}}
 		fewP := few
 		fewP.Punch = true
+		// every read and write goes through the real rpc.Client -> TCP loopback -> rpc.Server -> the same replica.Server
+		wire := fewP
+		wire.ViaRPC = true
+		wire.Alphabet = []string{"W", "SnapU", "SnapA", "Rm", "ReopenP", "Reload", "R"}
 		return []run{
+			{"3blk-punch-through-rpc", wire, pick(3, 5), minutes(pickf(0.4, 4))},
 			{"3blk-nopunch", few, pick(4, 6), minutes(pickf(0.45, 7))},
 			{"3blk-punch", fewP, pick(4, 6), minutes(pickf(0.45, 7))},
 			{"3blk-from-3snap-chain-nopunch", chain, pick(3, 5), minutes(pickf(0.45, 6))},
@@ -119,7 +124,13 @@ func runsFor(prop, tier string) []run {
 		c5 := c2
 		c5.ViaREST = true
 		c5.Alphabet = []string{"W", "SnapU", "SnapA", "Rm", "Mark", "ReopenP", "Reload", "Revert"}
+		// reverts back and forth between branches: a user snapshot outside the chain keeps its image and can be reverted to
+		c6 := c2
+		c6.InitOps = []string{"W:0:16", "SnapU", "W:0:8", "SnapU", "W:8:8", "SnapA", "W:4:8", "Revert:0"}
+		c6.Alphabet = []string{"W", "SnapU", "SnapA", "Rm", "Revert", "RevertO", "RmO", "ReopenP", "ReloadULM"}
+		c6.MaxSnaps = 5
 		return []run{
+			{"2blk-revert-between-branches", c6, pick(3, 5), minutes(pickf(0.7, 6))},
 			{"2blk-mixed-punch-through-rest", c5, pick(4, 6), minutes(pickf(0.7, 6))},
 			{"2blk-held-holes", c4, pick(5, 6), minutes(pickf(1.0, 8))},
 			{"3blk-aligned-punch", c, pick(5, 7), minutes(pickf(1.7, 16))},
@@ -151,9 +162,16 @@ func runsFor(prop, tier string) []run {
 		c3.InitOps = []string{"W:0:16", "SnapA", "W:0:8", "SnapA", "W:8:8", "SnapU", "W:4:8", "SnapA", "W:0:8"}
 		c3.MaxSnaps = 6
 		c3.MaxWrites = 7
+		// snapshots that a revert left outside the chain are targets too: revert to them, unlink them, mark them removed
+		c5 := c
+		c5.InitOps = []string{"W:0:16", "SnapU", "W:0:8", "SnapU", "W:8:8", "SnapA", "W:4:8", "Revert:0"}
+		c5.Alphabet = []string{"W", "SnapU", "SnapA", "Rm", "Mark", "Revert", "RevertO", "RmO", "MarkO", "ReopenP", "Reload", "Checkpoint"}
+		c5.Oracles = []string{"chain", "read", "snapdirect", "snaprevert", "crashopen", "reopen"}
+		c5.MaxSnaps = 5
+		c5.MaxWrites = 6
 		c4 := c2
 		c4.ViaREST = true
-		return []run{{"2blk-mgmt-from-chain3-through-rest", c4, pick(3, 5), minutes(pickf(0.7, 6))}, {"2blk-mgmt", c, pick(5, 6), minutes(pickf(1.4, 10))}, {"2blk-mgmt-from-chain3", c2, pick(4, 5), minutes(pickf(1.0, 10))}, {"2blk-mgmt-from-auto-chain4", c3, pick(3, 5), minutes(pickf(0.9, 8))}}
+		return []run{{"2blk-orphan-targets", c5, pick(3, 5), minutes(pickf(0.7, 6))}, {"2blk-mgmt-from-chain3-through-rest", c4, pick(3, 5), minutes(pickf(0.7, 6))}, {"2blk-mgmt", c, pick(5, 6), minutes(pickf(1.4, 10))}, {"2blk-mgmt-from-chain3", c2, pick(4, 5), minutes(pickf(1.0, 10))}, {"2blk-mgmt-from-auto-chain4", c3, pick(3, 5), minutes(pickf(0.9, 8))}}
 	case "C17":
 		alpha := []string{"Close", "Open", "Mode:RW", "Mode:WO", "Mode:junk", "Rebuild:t", "Rebuild:f", "Reload", "W", "R", "Sync", "Unmap", "SnapA", "SetRev:9", "RmGate", "Mark", "Rm", "RevertUnknown", "SnapDup", "Shrink", "ResizeGarbage", "RmHead", "RmRawLatest", "RmUnknown"}
 		c := ea.Cfg{Blocks: 2, Alphabet: alpha, WShapes: [][2]int{{0, 8}}, RShapes: [][2]int{{0, 16}}, Oracles: []string{"rev", "read"}, MaxSnaps: 3, MaxWrites: 4,
